@@ -41,6 +41,11 @@ pub assume_specification[ u32::pow ](b: u32, e: u32) -> (r: u32)
     ensures  r == vstd::arithmetic::power::pow(b as int, e as nat);
 } // mod vp_std
 pub use vp_std::*;
+/// `&String == &str` (std's PartialEq<str> for String: same characters); Verus has no specification for it
+#[verifier::external_body]
+pub fn vp_str_eq(a: &String, b: &str) -> (r: bool)
+    ensures r == (a@ == b@)
+{ a == b }
 // Vec::drain(0..1).collect() and Vec::extend(Vec) are outside Verus' std specs: routed (logged rewrites) through these
 #[verifier::external_body]
 pub fn vp_take_first<T>(v: Vec<T>) -> (r: Vec<T>)
